@@ -6,8 +6,15 @@
    specification side (Spec/MsgSpec.v), the oracle:
    (3 4 le type flags serial ((code ty wval)...) (tys) (wvals) (fds))
        -> ("header" "padding" "body" type serial expect_reply auto_start ((code val)...) (body?))
-      the encoding msg_enc of the wire message and what a receiver must recover from it *)
-From Tx Require Import Lib.Base Lib.Sexp Model.PyVal Model.Marshal Model.Message Model.OpsC01 Model.OpsSpec
+      the encoding msg_enc of the wire message and what a receiver must recover from it
+   the current message.py (Model/MessageCur.v):
+   (3 5 "raw" fds) -> (1 mtype serial er au ((code val)...) (body?) other_flags "rawBody") | (0 err)
+   (3 6 mtype endian other_flags er au ((code val)...) body new_serial self_serial next fds rawbody)
+       -> (1 "hdr" "pad" "body" fds next') | (0 err next')        rawbody: () or ("bytes")
+   (3 7 "raw" fds "sender") -> parseMessage; sender := ...; endian := raw[0]; _marshal(False, rawBody=m.rawBody)
+       -> (1 "hdr" "pad" "body") | (0 stage err)                    stage 1: parse failed, 2: _marshal failed
+   (3 8 mtype er au ((code val)...) body next fds) -> like (3 1 ...) through construct_cur_st *)
+From Tx Require Import Lib.Base Lib.Sexp Model.PyVal Model.Marshal Model.Message Model.MessageCur Model.OpsC01 Model.OpsSpec
   Spec.WireSpec Spec.Readback Spec.MsgSpec.
 Local Open Scope Z_scope.
 
@@ -66,6 +73,56 @@ Definition op (args : list sexp) : sexp :=
                  SNum mt; SNum serial; sbool (expect_reply_of m); sbool (auto_start_of m);
                  SList (map (fun cv => SList [SNum (fst cv); pv_to_sexp (snd cv)]) (recovered_fields fds' m));
                  sopt (fun l => SList (map pv_to_sexp l)) (recovered_body fds' m)]
+      | _, _, _, _, _ => bad
+      end
+  | [SNum 5; SBytes raw; fds] =>
+      match fds_of_sexp fds with
+      | Some f =>
+          match parse_message_cur (fuel_for header_format (2 * length raw + 260)) raw f with
+          | Ok ((mt, serial, er, au, attrs, body), other, rb) =>
+              SList [SNum 1; sN mt; SNum serial; sbool er; sbool au;
+                     SList (map attr_pair_to_sexp attrs);
+                     sopt (fun l => SList (map pv_to_sexp l)) body; SNum other; SBytes rb]
+          | Err e => SList [SNum 0; SNum (err_code e)]
+          end
+      | None => bad
+      end
+  | [SNum 6; SNum mt; SNum endian; SNum other; er; au; SList attrs; body; ns; SNum self_serial; SNum next; fds; rawbody] =>
+      let rb := match rawbody with
+                | SList [] => Some None
+                | SList [SBytes b] => Some (Some b)
+                | _ => None
+                end in
+      match as_bool er, as_bool au, map_opt attr_pair_of_sexp attrs, pv_of_sexp body, as_bool ns, fds_of_sexp fds, rb with
+      | Some er', Some au', Some attrs', Some body', Some ns', Some f, Some rb' =>
+          let fuel := (marshal_fuel header_format body' + 40)%nat in
+          match marshal_msg_cur_st fuel (Z.to_N mt) endian other er' au' attrs' body' ns' self_serial next f rb' with
+          | (Ok (h, p, b, f'), next') => SList [SNum 1; SBytes h; SBytes p; SBytes b; fds_to_sexp f'; SNum next']
+          | (Err e, next') => SList [SNum 0; SNum (err_code e); SNum next']
+          end
+      | _, _, _, _, _, _, _ => bad
+      end
+  | [SNum 7; SBytes raw; fds; SBytes sender] =>
+      match fds_of_sexp fds with
+      | Some f =>
+          match parse_message_cur (fuel_for header_format (2 * length raw + 260)) raw f with
+          | Ok m =>
+              match remarshal_cur (fuel_for header_format (2 * length raw + 260)) raw sender m with
+              | Ok (h, p, b, _) => SList [SNum 1; SBytes h; SBytes p; SBytes b]
+              | Err e => SList [SNum 0; SNum 2; SNum (err_code e)]
+              end
+          | Err e => SList [SNum 0; SNum 1; SNum (err_code e)]
+          end
+      | None => bad
+      end
+  | [SNum 8; SNum mt; er; au; SList attrs; body; SNum serial; fds] =>
+      match as_bool er, as_bool au, map_opt attr_pair_of_sexp attrs, pv_of_sexp body, fds_of_sexp fds with
+      | Some er', Some au', Some attrs', Some body', Some f =>
+          let fuel := (marshal_fuel header_format body' + 40)%nat in
+          match construct_cur_st fuel (Z.to_N mt) er' au' attrs' body' serial f with
+          | (Ok (h, p, b, f'), next) => SList [SNum 1; SBytes h; SBytes p; SBytes b; fds_to_sexp f'; SNum next]
+          | (Err e, next) => SList [SNum 0; SNum (err_code e); SNum next]
+          end
       | _, _, _, _, _ => bad
       end
   | [SNum 3; le; SBytes raw] =>
